@@ -72,7 +72,7 @@ type pcConf struct {
 }
 
 func concEligible(c map[string]interface{}) bool {
-	return vt.Str(c["reg"]) == "synth" && vt.Str(c["form"]) != "New" && vt.Str(c["fail"]) == "none" &&
+	return vt.Str(c["reg"]) == "synth" && vt.Str(c["how"]) == "Register" && vt.Str(c["form"]) != "New" && vt.Str(c["fail"]) == "none" &&
 		!vt.Bool(c["mutate"]) && vt.Str(c["nested"]) == "none" && vt.Str(c["cfg"]) != "none" && vt.Int(c["calls"]) == 2 &&
 		vt.Str(c["user"]) == "set" && vt.Str(c["dv"]) == "valid"
 }
@@ -170,7 +170,7 @@ type pcConf2 struct {
 }
 
 func concNewEligible(c map[string]interface{}) bool {
-	return vt.Str(c["reg"]) == "synth" && vt.Str(c["form"]) == "New" && vt.Str(c["fail"]) == "none" &&
+	return vt.Str(c["reg"]) == "synth" && vt.Str(c["how"]) == "Register" && vt.Str(c["form"]) == "New" && vt.Str(c["fail"]) == "none" &&
 		vt.Str(c["nested"]) == "none" && vt.Str(c["cfg"]) != "none" && vt.Str(c["user"]) == "set" && vt.Str(c["dv"]) == "valid"
 }
 
